@@ -133,6 +133,7 @@ inductive AttrVal where
   | none                    -- `None`
   | str (s : PStr)
   | list (l : List PStr)    -- a multi-valued attribute (list or tuple of str)
+  | other (s : PStr)        -- any other object (int, float, bool, a path/URL object …); `s` is its `str()`
 deriving DecidableEq, Repr
 
 /-- `pfx = []` stands for a `prefix` of `None` or `""`; `canBeEmpty` = `can_be_empty_element is True`; `pre` = the name is
@@ -196,6 +197,8 @@ def attrPiece (c : Cfg) (interp : Subst → PStr → PStr) (kv : PStr × AttrVal
   | .none => kv.1
   | .str s => kv.1 ++ [61] ++ quoteAttr (substitute c interp none false s)
   | .list l => kv.1 ++ [61] ++ quoteAttr (substitute c interp none false ([32].intercalate l))
+  -- `elif not isinstance(val, str): val = str(val)` (element.py:2603-2604) comes BEFORE `formatter.attribute_value(val)`
+  | .other s => kv.1 ++ [61] ++ quoteAttr (substitute c interp none false s)
 
 /-- `attribute_string` of `_format_tag`: `" " + " ".join(attrs)` if there are any -/
 def attrString (c : Cfg) (interp : Subst → PStr → PStr) (attrs : List (PStr × AttrVal)) : PStr :=
@@ -296,7 +299,8 @@ def calls (c : Cfg) (parent : Option PStr) : Node → List PStr
       (attributes c as).filterMap fun kv => match kv.2 with
         | .none => none
         | .str s => some s
-        | .list l => some ([32].intercalate l))
+        | .list l => some ([32].intercalate l)
+        | .other s => some s)
     ++ callsL c (some n) ks
 def callsL (c : Cfg) (parent : Option PStr) : List Node → List PStr
   | [] => []
